@@ -4,8 +4,16 @@ package wazevo
 
 import (
 	"bytes"
+	"context"
 	"io"
 	"unsafe"
+
+	"github.com/tetratelabs/wazero/api"
+	"github.com/tetratelabs/wazero/experimental"
+	"github.com/tetratelabs/wazero/internal/engine/interpreter"
+	"github.com/tetratelabs/wazero/internal/engine/wazevo/backend"
+	"github.com/tetratelabs/wazero/internal/engine/wazevo/ssa"
+	"github.com/tetratelabs/wazero/internal/wasm/binary"
 
 	"github.com/tetratelabs/wazero/internal/filecache"
 	"github.com/tetratelabs/wazero/internal/verifrt"
@@ -27,7 +35,7 @@ const verifOurVersion = "1.2.3"
 
 // VerifC13_Deserialize: an entry produced by the real serializeCompiledModule for an arbitrary compiled module (0..2
 // function offsets, 0..3 code bytes, optional source map, all values symbolic), written by a wazero of an arbitrary
-// version string (0..7 symbolic bytes) and then cut to any length, is read back by the real
+// version string (0..12 symbolic bytes) and then cut to any length, is read back by the real
 // getCompiledModuleFromCache / deserializeCompiledModule:
 //   - it is used (hit) only if the version is ours and what was read equals the module that was written - a truncated
 //     entry is never accepted with different content;
@@ -57,18 +65,29 @@ func VerifC13_Deserialize() {
 		cm.sourceMap.executableOffsets = []uintptr{uintptr(unsafe.Pointer(&cm.executable[0])) + uintptr(rel)}
 	}
 	// the version that wrote the entry
-	vlen := verifrt.Choose("verlen", 8)
+	// lengths around ours (5) and around the point where the cached version overruns the header read for ours (5+4)
+	vlen := []int{0, 4, 5, 6, 9, 12}[verifrt.Choose("verlen", 6)]
 	ver := make([]byte, vlen)
-	vbits := verifrt.U64("ver")
+	vbits, vbits2 := verifrt.U64("ver"), verifrt.U64("ver2")
 	for i := range ver {
-		ver[i] = byte(vbits >> (8 * i))
+		if i < 8 {
+			ver[i] = byte(vbits >> (8 * i))
+		} else {
+			ver[i] = byte(vbits2 >> (8 * (i - 8)))
+		}
 	}
 	sameVersion := string(ver) == verifOurVersion
 	full, err := io.ReadAll(serializeCompiledModule(string(ver), cm))
 	if err != nil {
 		panic(err)
 	}
-	cut := verifrt.Choose("cut", len(full)+1)
+	// every truncation length for an entry of our version's length; a few for the others (they are stale whatever follows)
+	var cut int
+	if vlen == len(verifOurVersion) {
+		cut = verifrt.Choose("cut", len(full)+1)
+	} else {
+		cut = []int{len(full), len(full) - 1, 7, 0}[verifrt.Choose("cutForeign", 4)]
+	}
 	cache := &verifCache{content: full[:cut]}
 	e := &engine{fileCache: cache, wazeroVersion: verifOurVersion}
 	got, hit, err := e.getCompiledModuleFromCache(&wasm.Module{ID: wasm.ModuleID{1, 2, 3}})
@@ -105,4 +124,106 @@ func VerifC13_Deserialize() {
 			verifrt.Cover("reported")
 		}
 	}
+}
+
+// ---- C12: a compiled module obtained from the file cache behaves like a freshly compiled one
+
+type verifStoreCache struct{ content []byte }
+
+func (c *verifStoreCache) Get(filecache.Key) (io.ReadCloser, bool, error) {
+	if c.content == nil {
+		return nil, false, nil
+	}
+	return io.NopCloser(bytes.NewReader(c.content)), true, nil
+}
+func (c *verifStoreCache) Add(_ filecache.Key, r io.Reader) (err error) {
+	c.content, err = io.ReadAll(r)
+	return
+}
+func (c *verifStoreCache) Delete(filecache.Key) error { c.content = nil; return nil }
+
+func verifNewEngine(fc filecache.Cache) *engine {
+	ctx := context.Background()
+	machine := newMachine()
+	be := backend.NewCompiler(ctx, machine, ssa.NewBuilder())
+	e := &engine{compiledModules: map[wasm.ModuleID]*compiledModule{}, setFinalizer: func(interface{}, interface{}) {},
+		machine: machine, be: be, fileCache: fc, wazeroVersion: verifOurVersion}
+	e.compileSharedFunctions()
+	return e
+}
+
+type verifLsn struct{}
+
+func (verifLsn) Before(context.Context, api.Module, api.FunctionDefinition, []uint64, experimental.StackIterator) {
+}
+func (verifLsn) After(context.Context, api.Module, api.FunctionDefinition, []uint64) {}
+func (verifLsn) Abort(context.Context, api.Module, api.FunctionDefinition, error)    {}
+
+func verifDecode(bin []byte, listeners []experimental.FunctionListener, ensureTermination bool) *wasm.Module {
+	m, err := binary.DecodeModule(bin, api.CoreFeaturesV2, 65536, false, false, false)
+	if err != nil {
+		panic(err)
+	}
+	if err = m.Validate(api.CoreFeaturesV2); err != nil {
+		panic(err)
+	}
+	m.BuildMemoryDefinitions()
+	m.AssignModuleID(bin, listeners, ensureTermination)
+	return m
+}
+
+// VerifC12_CacheHitEqualsFreshCompile: a module (memory, passive data segment, two functions one of which uses
+// memory.init/data.drop) is compiled by one engine and stored in the file cache, then obtained by a second engine (another
+// runtime, same cache) through the cache-hit path, under each listener setting (none / a factory that returns nil for
+// every function / listeners on a subset) and termination setting: the compiled module the second engine ends up with
+// has the same machine code, function offsets, termination flag and - crucially - the same module-context layout
+// (offsets of memory, globals, tables, data/element instances, listener trampolines) the code was compiled against.
+//verif:opts split=listeners:3 wall=1500
+func VerifC12_CacheHitEqualsFreshCompile() {
+	ctx := context.Background()
+	spec := &interpreter.VerifModuleSpec{HasMem: true, MemMin: 1, MemMax: 2, GlobalTypes: []byte{interpreter.VI32}, GlobalInits: []int64{1},
+		Funcs: []interpreter.VerifFuncSpec{
+			{Params: []byte{interpreter.VI32}, Results: []byte{interpreter.VI32}, Export: "f", Body: []byte{0x20, 0x00, 0x41, 0x00, 0x41, 0x04, 0xfc, 0x08, 0x00, 0x00, 0x20, 0x00, 0x28, 0x02, 0x00}},
+			{Export: "g", Body: []byte{0xfc, 0x09, 0x00}},
+		}}
+	bin := interpreter.VerifAddPassiveData(interpreter.VerifEncode(spec), []byte{1, 2, 3, 4})
+	var listeners []experimental.FunctionListener
+	switch verifrt.Choose("listeners", 3) {
+	case 1:
+		listeners = []experimental.FunctionListener{nil, nil}
+	case 2:
+		listeners = []experimental.FunctionListener{verifLsn{}, nil}
+	}
+	term := verifrt.Choose("ensureTermination", 2) == 1
+	cache := &verifStoreCache{}
+	e1 := verifNewEngine(cache)
+	m1 := verifDecode(bin, listeners, term)
+	err := e1.CompileModule(ctx, m1, listeners, term)
+	verifrt.Assert(err == nil, "fresh compilation succeeds")
+	fresh := e1.compiledModules[m1.ID]
+	verifrt.Assert(fresh != nil && cache.content != nil, "the compiled module is kept and written to the file cache")
+	if err != nil || fresh == nil || cache.content == nil {
+		return
+	}
+	e2 := verifNewEngine(cache)
+	m2 := verifDecode(bin, listeners, term)
+	err = e2.CompileModule(ctx, m2, listeners, term)
+	verifrt.Assert(err == nil, "compilation with a warm cache succeeds")
+	hit := e2.compiledModules[m2.ID]
+	if err != nil || hit == nil {
+		verifrt.Assert(false, "the module is available after a cache hit")
+		return
+	}
+	verifrt.Assert(hit.offsets == fresh.offsets, "a cache hit uses the module-context layout the cached code was compiled against")
+	verifrt.Assert(hit.ensureTermination == fresh.ensureTermination, "a cache hit keeps the termination setting")
+	same := len(hit.functionOffsets) == len(fresh.functionOffsets) && len(hit.executable) == len(fresh.executable)
+	for i := 0; same && i < len(fresh.functionOffsets); i++ {
+		same = hit.functionOffsets[i] == fresh.functionOffsets[i]
+	}
+	for i := 0; same && i < len(fresh.executable); i++ {
+		same = hit.executable[i] == fresh.executable[i]
+	}
+	verifrt.Assert(same, "a cache hit yields the machine code and function offsets of the fresh compilation")
+	verifrt.Assert(len(hit.listeners) == len(fresh.listeners) && len(hit.listenerBeforeTrampolines) == len(fresh.listenerBeforeTrampolines), "a cache hit has the listener tables of a fresh compilation")
+	verifrt.Cover("hit")
 }
